@@ -480,7 +480,7 @@ def exec_op(env, op, th=None):
     if th is not None:
         th.begin_op(op.get('cancel'))
     try:
-        out, ctx = ops.call(thunk, faults, env.norm, env.retained)
+        out, ctx = ops.call(thunk, faults, env.norm, env.retained, graph=(kind == 'load'))
     except seam.SimCancel:
         out = {'status': 'cancelled', 'trace': []}
         ctx = None
